@@ -12,10 +12,12 @@ Reference conventions
   * "in scope" (the property's quantifier): integers without fraction/exponent within int64, other numbers
     zero or within the normal double range, every string code point <= U+00FF, unique keys, nesting <= 500
   * numbers are compared numerically (integer literals exactly, others with relative tolerance 1e-12);
-    int/float kind is NOT compared
+    int/float kind is NOT compared; when the reference value is a zero and phosg returns a float, the sign bit
+    is compared as well (-0.0, -0e0 are negative zero; the integer literal -0 is int 0)
 """
 import glob
 import json
+import math
 import multiprocessing
 import multiprocessing.pool
 import os
@@ -170,6 +172,10 @@ def compare(ref, tag, path="$", lenient_unicode=False):
             ok = (got == int(ref)) if tag[0] == "i" else (got == got and abs(got) != float("inf") and Fraction(got) == int(ref))
         else:
             ok = _close(float(got), float(ref))
+            if ok and float(ref) == 0 and tag[0] == "d" and math.copysign(1.0, got) != math.copysign(1.0, float(ref)):
+                # -0.0 / -0e0 / -0.000E+2 denote negative zero (CPython: copysign(1, x) == -1); an int result has no sign
+                return ("number:zero-sign", "%s: number %s is %r for the reference, came back as %r (sign bit differs)" % (
+                    path, ref.lit, float(ref), got))
         return None if ok else (numclass(ref.lit), "%s: number %s (= %r) came back as %s %r" % (
             path, ref.lit, ref.real if isinstance(ref, FloatLit) else int(ref), "int" if tag[0] == "i" else "float", got))
     if isinstance(ref, str):
@@ -245,7 +251,9 @@ SPECIAL_NUMS = ["5e-1", "1E+2", "-0.0", "1e19", "1e+20", "1.0e+20", "0.5", "0e0"
                 "1e-307", "0.000000000000000000000000000001", "100000000000000000000.0", "1.5E+300", "-1e-300", "1e18", "1e-5",
                 "25e-1", "1e1", "2E0", "1e05", "1E-007", "3.141592653589793", "-10.5", "1.4", "6.02214076e23", "6.62607015E-34",
                 "0.1", "0.30000000000000004", "1e+0", "120e-2", "12e3", "5E-1", "-5e-1", "1.0E2", "99e-2", "1e-1", "9e-1",
-                "10e-1", "1000e-3", "123e-2", "1e2", "1e3", "7e0"]
+                "10e-1", "1000e-3", "123e-2", "1e2", "1e3", "7e0",
+                "-0e0", "-0.000E+2", "-0E-5", "0e10", "-0.0e-300", "-0.0E+300", "-0.00000000000000000000", "0.000e-0", "-0e-0",
+                "-0E+340", "0E-340", "-0.0e0", "0.0E+0", "-0e+5"]
 SIMPLE_ESC = {'"': '"', "\\": "\\", "/": "/", "b": "\b", "f": "\f", "n": "\n", "r": "\r", "t": "\t"}
 
 
@@ -815,6 +823,10 @@ def _features(val, out, depth=1):
                 out.add("num:written-exponent>=310:" + ("neg" if m.group(5) == "-" else "pos"))
             if len(m.group(6)) > len(m.group(6).lstrip("0")) and m.group(6).lstrip("0"):
                 out.add("num:exponent-leading-zeros")
+        if isinstance(val, FloatLit) and val == 0:
+            out.add("num:float-zero:" + ("negative" if val.lit.startswith("-") else "positive"))
+        if isinstance(val, IntLit) and val.lit == "-0":
+            out.add("num:int-minus-zero")
         if m and len(m.group(2)) >= 20:
             out.add("num:integer-digits>=20")
         if m and m.group(3) and len(m.group(3)) > 20:
